@@ -499,6 +499,39 @@ Proof.
   eapply gcall_ops; eauto.
 Qed.
 
+(* calls of defined gates inside the blocks of a conditional *)
+Definition hcallb (env : renv) (G : genv) (stm : stmt) : option (list stmt * list (list rsrc)) :=
+  match stm with
+  | SGate [] name args qs =>
+      match sget name G, mapM (opnd_bits (e_q env)) qs, cvals args with
+      | Some _, Some bss, Some vs =>
+          if distinctb [] (List.concat bss) then gcall (Nat.pred (Nat.pred gate_nesting)) env G [] name vs (List.concat bss) else None
+      | _, _, _ => None
+      end
+  | _ => None
+  end.
+
+Lemma hcallb_fix check_only f env G s stm o e : (Nat.pred gate_nesting <= f)%nat ->
+  Regs env s -> gates s = G -> gstack s = [] -> hcallb env G stm = Some (o, e) ->
+  exists s1, visit_stmt check_only [] (S f) stm s = Ok ((if check_only then [] else o), s1) /\ DE s s1 /\ Dstep s s1 e.
+Proof.
+  intros Hn R HG HS H. destruct stm; try discriminate H. cbn [hcallb] in H. destruct mods; [|discriminate H].
+  destruct (sget name G) as [gd|] eqn:Eg; [|discriminate H].
+  destruct (mapM (opnd_bits (e_q env)) qubits) as [bss|] eqn:Eb; [|discriminate H]. destruct (cvals args) as [vs|] eqn:Ev; [|discriminate H].
+  destruct (distinctb [] (List.concat bss)) eqn:Ed; [|discriminate H].
+  destruct f as [|f']; [unfold gate_nesting in Hn; cbn in Hn; lia|].
+  eapply (gcall_fix check_only env G (Nat.pred (Nat.pred gate_nesting)) f' [] s name args vs qubits bss o e); eauto.
+  unfold gate_nesting in *. cbn in *. lia.
+Qed.
+
+Lemma hcallb_ops env G stm o e : hcallb env G stm = Some (o, e) -> forallb (op_ok env) o = true.
+Proof.
+  intros H. destruct stm; try discriminate H. cbn [hcallb] in H. destruct mods; [|discriminate H].
+  destruct (sget name G); [|discriminate H]. destruct (mapM (opnd_bits (e_q env)) qubits) as [bss|]; [|discriminate H].
+  destruct (cvals args) as [vs|]; [|discriminate H]. destruct (distinctb [] (List.concat bss)); [|discriminate H].
+  eapply gcall_ops; eauto.
+Qed.
+
 Definition gtop_step (env : renv) (G : genv) (stm : stmt) : option (renv * genv * list stmt * list (list rsrc)) :=
   match stm with
   | SGateDef name params qubits body =>
@@ -517,7 +550,7 @@ Definition gtop_step (env : renv) (G : genv) (stm : stmt) : option (renv * genv 
                   match gloop_ok hcall env G stm with
                   | Some (out, evs) => Some (env, G, out, evs)
                   | None =>
-                      match branch_ok env G stm with
+                      match branch_ok hcallb env G stm with
                       | Some (out, evs) => Some (env, G, out, evs)
                       | None => match ptop_step env stm with Some (env', out, evs) => Some (env', G, out, evs) | None => None end
                       end
@@ -589,7 +622,7 @@ Proof.
                                   | Some (out, evs) => Some (env, G, out, evs)
                                   | None => match gloop_ok hcall env G stm with
                                             | Some (out, evs) => Some (env, G, out, evs)
-                                            | None => match branch_ok env G stm with
+                                            | None => match branch_ok hcallb env G stm with
                                                       | Some (out, evs) => Some (env, G, out, evs)
                                                       | None => match ptop_step env stm with Some (env', out, evs) => Some (env', G, out, evs) | None => None end
                                                       end
@@ -633,10 +666,11 @@ Proof.
             destruct (DE_counts _ _ D1) as [Nq Nc]. destruct (gframe_DE _ _ D1) as [Fg Fs].
             exists s1. split; [exact E1|]. split; [eapply Top_DE; eauto|]. split; [lia|]. split; [lia|]. split; [exact S1|].
             split; [intros r0; now apply wf_flat_ops|]. split; congruence. }
-          destruct (branch_ok env G stm) as [[bo be]|] eqn:Ebo.
+          destruct (branch_ok hcallb env G stm) as [[bo be]|] eqn:Ebo.
           { injection Eo as <- <- <- <-. destruct fuel as [|[|f]]; try lia.
-            destruct (branch_ok_fix false f env G s stm bo be (T_regs _ _ T) HG Ebo) as (s1 & E1 & D1 & S1).
-            pose proof (branch_ok_ops env G stm bo be Ebo) as Ops. destruct (total_ops env bo Ops) as [Tq Tc].
+            assert (Hnf : (Nat.pred gate_nesting <= f)%nat) by (unfold gate_nesting in *; cbn; lia).
+            destruct (branch_ok_fix hcallb (Nat.pred gate_nesting) hcallb_fix false f env G s stm bo be Hnf (T_regs _ _ T) HG Hst Ebo) as (s1 & E1 & D1 & S1).
+            pose proof (branch_ok_ops hcallb env G stm bo be Ebo) as Ops. destruct (total_ops env bo Ops) as [Tq Tc].
             destruct (DE_counts _ _ D1) as [Nq Nc]. destruct (gframe_DE _ _ D1) as [Fg Fs].
             exists s1. split; [exact E1|]. split; [eapply Top_DE; eauto|]. split; [lia|]. split; [lia|]. split; [exact S1|].
             split; [intros r0; now apply wf_flat_ops|]. split; congruence. }
@@ -761,7 +795,7 @@ Proof.
                                   | Some (out, evs) => Some (env, G, out, evs)
                                   | None => match gloop_ok hcall env G stm with
                                             | Some (out, evs) => Some (env, G, out, evs)
-                                            | None => match branch_ok env G stm with
+                                            | None => match branch_ok hcallb env G stm with
                                                       | Some (out, evs) => Some (env, G, out, evs)
                                                       | None => match ptop_step env stm with Some (env', out, evs) => Some (env', G, out, evs) | None => None end
                                                       end
@@ -793,10 +827,11 @@ Proof.
             assert (Hnf : (Nat.pred gate_nesting <= S f)%nat) by (unfold gate_nesting in *; lia).
             destruct (gloop_fix_validate hcall (Nat.pred gate_nesting) hcall_fix f env G s stm glo gle Hnf T HG Hst Elo) as (s1 & E1 & D1).
             exists s1. split; [exact E1|]. apply HDE; auto. eapply (gloop_ok_ops hcall hcall_ops); eauto. }
-          destruct (branch_ok env G stm) as [[bo be]|] eqn:Ebo.
+          destruct (branch_ok hcallb env G stm) as [[bo be]|] eqn:Ebo.
           { injection Eo as <- <- <- <-. destruct fuel as [|[|f]]; try lia.
-            destruct (branch_ok_fix true f env G s stm bo be (T_regs _ _ T) HG Ebo) as (s1 & E1 & D1 & S1).
-            exists s1. split; [exact E1|]. apply HDE; auto. eapply branch_ok_ops; eauto. }
+            assert (Hnf : (Nat.pred gate_nesting <= f)%nat) by (unfold gate_nesting in *; cbn; lia).
+            destruct (branch_ok_fix hcallb (Nat.pred gate_nesting) hcallb_fix true f env G s stm bo be Hnf (T_regs _ _ T) HG Hst Ebo) as (s1 & E1 & D1 & S1).
+            exists s1. split; [exact E1|]. apply HDE; auto. eapply (branch_ok_ops hcallb); eauto. }
           destruct (ptop_step env stm) as [[[env'' out''] evs'']|] eqn:Ep; [|discriminate Eo]. injection Eo as <- <- <- <-.
           unfold ptop_step in Ep. destruct (loop_ok env stm) as [lo|] eqn:El.
           + injection Ep as <- <- <-. destruct fuel as [|[|f]]; try lia.
